@@ -74,10 +74,108 @@ def adapters_part(ck, tier, rng):
                   dict(kind="epics", logs=logs))
 
 
+def epics_registry_part(ck, tier, rng):
+    """the shipped EpicsIo + adapter registry (only the function that builds the real soft IOC is replaced):
+    EPICS adapters at several nesting depths, with and without an extra, disconnected EPICS device; what a
+    client could see of the other devices' records (served or not, values written) must not change, the IOC
+    must start once, no adapter may fail"""
+    try:
+        import tickit.adapters.epics as epics
+        from tickit.adapters.epics import EpicsAdapter, InputRecord
+        from tickit.adapters.io.epics_io import EpicsIo
+    except Exception as e:
+        ck.assumptions.append("EPICS classes could not be imported: " + repr(e))
+        return
+    from tickit.core.adapter import AdapterContainer
+    EXT, EXP = 1, 2
+
+    class FakeIoc:
+        def __init__(self):
+            self.created, self.served, self.starts, self.written = [], None, 0, {}
+
+        def start(self):
+            self.starts += 1
+            if self.served is None:
+                self.served = set(self.created)
+
+    def run(cfg, devs):
+        ioc = FakeIoc()
+        failed = {}
+
+        class ValueAdapter(EpicsAdapter):
+            def __init__(self, dev):
+                super().__init__()
+                self.dev = dev
+
+            def on_db_load(self):
+                pv = f"c{self.dev}:VALUE"
+                ioc.created.append(pv)
+                ioc.written[pv] = []
+                self.link_input_on_interrupt(InputRecord(pv, ioc.written[pv].append, lambda: None),
+                                             lambda: sum(1 for (c, _, _) in slevel.TRACE if c == self.dev))
+
+            def after_update(self):
+                for record, getter in self.interrupt_records.items():
+                    record.set(getter())
+
+        class SafeIo(EpicsIo):
+            async def setup(self, adapter, raise_interrupt):
+                try:
+                    await super().setup(adapter, raise_interrupt)
+                except Exception as e:  # noqa
+                    failed[adapter.dev] = repr(e)
+
+        orig = epics._build_and_run_ioc
+        epics._build_and_run_ioc = ioc.start
+        epics._REGISTERED_ADAPTER_IDS.clear()
+        try:
+            ad = {d: (lambda d=d: [AdapterContainer(ValueAdapter(d), SafeIo(f"c{d}"))]) for d in slevel.devices_of(cfg)}
+            r = slevel.run_internal(cfg, devs, (1, 1), 0, [], 900_000_003, adapters=ad)
+        finally:
+            epics._build_and_run_ioc = orig
+            epics._REGISTERED_ADAPTER_IDS.clear()
+        return dict(served=sorted(ioc.served or []), starts=ioc.starts, written=ioc.written, failed=failed, error=r["error"])
+
+    shapes = [
+        {1: dict(order=[(3, 2)], conns=[]), 2: dict(order=[(4, "dev"), (5, 3)], conns=[]), 3: dict(order=[(6, "dev")], conns=[])},
+        {1: dict(order=[(3, "dev"), (4, 2)], conns=[]), 2: dict(order=[(5, "dev")], conns=[])},
+        {1: dict(order=[(3, 2), (6, 3)], conns=[]), 2: dict(order=[(4, "dev"), (5, "dev")], conns=[]), 3: dict(order=[(7, "dev")], conns=[])},
+        {1: dict(order=[(3, "dev"), (4, "dev")], conns=[])},
+    ]
+    for cfg in shapes:
+        devs = {d: (3, 200_000_000, 1) for d in slevel.devices_of(cfg)}
+        base = run(cfg, devs)
+        for pos in ("first", "last"):
+            ext = {k: dict(order=list(v["order"]), conns=list(v["conns"])) for k, v in cfg.items()}
+            if pos == "first":
+                ext[1]["order"].insert(0, (100, "dev"))
+            else:
+                ext[1]["order"].append((100, "dev"))
+            devs2 = dict(devs)
+            devs2[100] = (3, 300_000_000, 1)
+            e = run(ext, devs2)
+            ck.count("epics_registry:" + str(cfg) + pos, True)
+            ok = (not base["failed"] and not e["failed"] and base["starts"] == 1 and e["starts"] == 1 and not e["error"]
+                  and all(pv in e["served"] and e["written"].get(pv) == base["written"][pv] for pv in base["served"])
+                  and len(base["served"]) == len(devs))
+            if not ok:
+                ck.report("epics-records-depend-on-an-unrelated-adapter",
+                          f"EPICS adapters at several depths; adding the disconnected device c100 ({pos}) changes what is served: "
+                          f"base served {base['served']} starts {base['starts']} failed {base['failed']}; extended served {e['served']} "
+                          f"starts {e['starts']} failed {e['failed']}",
+                          dict(kind="epics_registry", cfg={str(k): v for k, v in cfg.items()}, position=pos, base=base, extended=e))
+                return
+
+
+def all_adapter_parts(ck, tier, rng):
+    adapters_part(ck, tier, rng)
+    epics_registry_part(ck, tier, rng)
+
+
 def main(tier, seed):
     return sprops.main_pairs(PID, tier, seed, {91}, "Props.C10",
                              ["Model/Sim.v", "Oracle/SimCheck.v", "Oracle/SimOracle.v", "Proofs/SimP.v", "Props/C10.v"],
-                             "non-interference of unconnected parts", "extend", extra_part=adapters_part)
+                             "non-interference of unconnected parts", "extend", extra_part=all_adapter_parts)
 
 
 replay = sprops.replay_pair
